@@ -49,9 +49,9 @@ def batch_size(tier):
 
 def cases(tier, seed):
     rng = random.Random(seed * 5309 + 2)
-    n = 64 if tier == 'quick' else 1200
+    n = 64 if tier == 'quick' else 400
     return [{'idx': i, 'wseed': rng.randrange(1 << 30),
-             'budget': 4 if tier == 'quick' else 24} for i in range(n)]
+             'budget': 4 if tier == 'quick' else 12} for i in range(n)]
 
 
 def noise_overlay(rng, plan, spec, tids):
